@@ -151,6 +151,10 @@ func (p *Parser) parseInsertStatement() (ast.Statement, error) {
 			if err != nil {
 				return nil, err
 			}
+		} else {
+			// nothing else can follow ON here: blame the token after it
+			p.advance() // Consume ON
+			return nil, p.expectedError("CONFLICT or DUPLICATE KEY after ON")
 		}
 	}
 
